@@ -276,7 +276,7 @@ def run(ctx):
                 hint = rng.choice([0, ln, max(0, ln - 1), ln + 1, 1, ln // 2, 2 * ln + 7, H['slurp'] - 1, H['slurp'], H['slurp'] + 1])
                 names = [rng.choice(fixed_names)] if ln > 300 else rng.sample(fixed_names, 2)
                 case(ctx, drv, runs, cuts, hint, names, 'scheduled', H)
-        for i in range(200 if ctx.tier == 'quick' else 3000):
+        for i in range(400 if ctx.tier == 'quick' else 3000):
             ln = rng.choice([0, 1, 7, 300, 5000, H['buf'], H['buf'] + 1, 200000])
             content = bytes(rng.randrange(256) for _ in range(min(ln, 2048))) * (ln // 2048 + 1)
             content = content[:ln]
